@@ -14,7 +14,7 @@ W = "src/pyab_experiment/utils/wraper_functions.py"
 MUTANTS = [
     dict(id="last8", props=["C12"], file=B, old="digest[:8]", new="digest[-8:]"),
     dict(id="sha1", props=["C12"], file=B, old="hashlib.md5(", new="hashlib.sha1("),
-    dict(id="salt_appended", props=["C12", "C09"], file=G,
+    dict(id="salt_appended", props=["C12"], file=G,
          old='composite_key = f"{salt_def}+{fields_def}"', new='composite_key = f"{fields_def}+{salt_def}"'),
     dict(id="decl_order", props=["C12", "C09"], file=G,
          old="fields_def = f\"''.join(map(str, [{', '.join(self.local_vars)}]))\"",
